@@ -1,10 +1,146 @@
-(* C18: series functions act row by row and follow their formulas.  Statements only. *)
+(* C18: series functions act row by row and follow their formulas.  Statements only;
+   proofs in Proofs/SeriesFacts.v.  Samples: option V, None = NaN.  *1 = L1 model built on the kernels
+   regenerated from series.py / _seriescolumn.py; unmarked = L0 specification (Spec/Series.v). *)
 From Coq Require Import ZArith QArith List Bool.
 From DM Require Import Spec.Series Gen.KSeries Model.Series Proofs.SeriesFacts.
 Import ListNotations.
 Local Open Scope nat_scope.
 
+(* ---- acting row by row ---- *)
+(* every function that is the map of a per-row function commutes with selecting / reordering host rows *)
 Theorem C18_rowwise_commutes : forall (V : Type) (f : list (option V) -> list (option V)) ps s,
   Forall (fun p => p < length s) ps -> take_rows ps (rowwise f s) = rowwise f (take_rows ps s).
 Proof. exact rowwise_commutes. Qed.
 Print Assumptions C18_rowwise_commutes.
+
+Theorem C18_rowwise_one_row_per_row : forall (V : Type) (f : list (option V) -> list (option V)) s,
+  length (rowwise f s) = length s.
+Proof. exact rowwise_length. Qed.
+Print Assumptions C18_rowwise_one_row_per_row.
+
+Theorem C18_rowwise_local : forall (V : Type) (f : list (option V) -> list (option V)) s s' i,
+  i < length s -> i < length s' -> nth i s [] = nth i s' [] -> nth i (rowwise f s) [] = nth i (rowwise f s') [].
+Proof. exact rowwise_local. Qed.
+Print Assumptions C18_rowwise_local.
+
+(* _SeriesColumn._map (used by downsample, smooth, z, interpolate, the filters): for any per-row function whose
+   results have one common depth it is the row-wise map *)
+Theorem C18_smap_rowwise : forall (V : Type) (f : list (option V) -> list (option V)) d s,
+  s <> [] -> (forall c, In c s -> length (f c) = d) -> smap (fun r => Some (f r)) s = Some (rowwise f s).
+Proof. exact smap_spec. Qed.
+Print Assumptions C18_smap_rowwise.
+
+(* reduce: one value per row, commuting with row selection *)
+Theorem C18_reduce_commutes : forall (V Y : Type) (op : list (option V) -> Y) (d : Y) ps s,
+  Forall (fun p => p < length s) ps -> map (fun p => nth p (map op s) d) ps = map op (take_rows ps s).
+Proof. exact map_commutes_take. Qed.
+Print Assumptions C18_reduce_commutes.
+
+(* ---- endlock ---- *)
+Theorem C18_endlock_spec : forall (V : Type) (s : list (list (option V))), endlock1 s = Some (endlock s).
+Proof. exact endlock_spec_L1. Qed.
+Print Assumptions C18_endlock_spec.
+
+Theorem C18_endlock_formula : forall (V : Type) (body : list (option V)) k,
+  trailing body = 0 -> endlock_row (body ++ nans k) = nans k ++ body.
+Proof. exact endlock_formula. Qed.
+Print Assumptions C18_endlock_formula.
+
+(* ---- lock ---- *)
+Theorem C18_lock_spec : forall (V : Type) d (s : list (list (option V))) lk,
+  lk <> [] -> length s = length lk -> (forall r, In r s -> length r = d) ->
+  lock1 d s lk = Some (lock s lk, lock_zero_point lk).
+Proof. exact lock_spec_L1. Qed.
+Print Assumptions C18_lock_spec.
+
+Theorem C18_lock_depth : forall (V : Type) M m (r : list (option V)) l, (m <= l <= M)%Z ->
+  length (lock_row M m r l) = length r + Z.to_nat (M - m).
+Proof. exact lock_row_depth. Qed.
+Print Assumptions C18_lock_depth.
+
+Theorem C18_lock_rowwise_mod_padding : forall (V : Type) ps (s : list (list (option V))) lk,
+  let lk' := map (fun q => nth q lk 0%Z) ps in
+  lock (take_rows ps s) lk' = map (fun p => lock_row (zmax lk') (zmin lk') (nth p s []) (nth p lk 0%Z)) ps.
+Proof. exact lock_commutes_mod_padding. Qed.
+Print Assumptions C18_lock_rowwise_mod_padding.
+
+(* ---- threshold ---- *)
+Theorem C18_threshold_spec : forall (V : Type) (inj : Z -> V) hit min_length s,
+  threshold1 inj hit min_length s = threshold (inj 1%Z) (inj 0%Z) hit min_length s.
+Proof. exact threshold_spec_L1. Qed.
+Print Assumptions C18_threshold_spec.
+
+(* exactly the maximal runs: a run of k hits closed by a miss is marked as a whole iff k >= min_length ... *)
+Theorem C18_threshold_run_then_miss : forall (V : Type) (inj : Z -> V) hit min_length k x r,
+  (forall y, In y k -> hit y = true) -> hit x = false ->
+  threshold_row (inj 1%Z) (inj 0%Z) hit min_length (k ++ x :: r)
+  = repeat (mark (inj 1%Z) (inj 0%Z) min_length (length k)) (length k)
+    ++ Some (inj 0%Z) :: threshold_row (inj 1%Z) (inj 0%Z) hit min_length r.
+Proof. exact threshold_run_then_miss. Qed.
+Print Assumptions C18_threshold_run_then_miss.
+
+(* ... and so is a run that touches the end of the row *)
+Theorem C18_threshold_run_at_end : forall (V : Type) (inj : Z -> V) hit min_length k,
+  (forall y, In y k -> hit y = true) ->
+  threshold_row (inj 1%Z) (inj 0%Z) hit min_length k
+  = repeat (mark (inj 1%Z) (inj 0%Z) min_length (length k)) (length k).
+Proof. exact threshold_run_at_end. Qed.
+Print Assumptions C18_threshold_run_at_end.
+
+(* ---- window / col[:, a:b], depth setter ---- *)
+Theorem C18_window_spec : forall (V : Type) d lo hi (s : list (list (option V))),
+  (forall r, In r s -> length r = d) -> window1 d lo hi s = window lo hi s.
+Proof. exact window_spec_L1. Qed.
+Print Assumptions C18_window_spec.
+
+Theorem C18_window_formula : forall (V : Type) (A B C : list (option V)),
+  window_row (Z.of_nat (length A)) (Some (Z.of_nat (length A + length B))) (A ++ B ++ C) = B.
+Proof. exact window_formula. Qed.
+Print Assumptions C18_window_formula.
+
+Theorem C18_set_depth_spec : forall (V : Type) old (d : Z) (s : list (list (option V))),
+  (0 <= d)%Z -> (forall r, In r s -> length r = old) -> set_depth1 old d s = Some (set_depth (Z.to_nat d) s).
+Proof. exact set_depth_spec_L1. Qed.
+Print Assumptions C18_set_depth_spec.
+
+(* ---- downsample ---- *)
+Theorem C18_downsample_spec : forall (by_ : Z) (s : list qrow) d,
+  (0 < by_)%Z -> s <> [] -> (forall r, In r s -> length r = d) ->
+  downsample1 by_ s = Some (downsample (Z.to_nat by_) s).
+Proof. exact downsample_spec_L1. Qed.
+Print Assumptions C18_downsample_spec.
+
+Theorem C18_downsample_depth : forall b (r : qrow), length (downsample_row b r) = length r / b.
+Proof. exact downsample_row_depth. Qed.
+Print Assumptions C18_downsample_depth.
+
+Theorem C18_downsample_formula : forall b (pre blk post : qrow) k,
+  0 < b -> length pre = k * b -> length blk = b -> k < (length (pre ++ blk ++ post)) / b ->
+  nth k (downsample_row b (pre ++ blk ++ post)) None = nanmean blk.
+Proof. exact downsample_formula. Qed.
+Print Assumptions C18_downsample_formula.
+
+(* ---- concatenate (L0): joins depths row by row ---- *)
+Theorem C18_concatenate_row : forall (V : Type) n (ss : list (list (list (option V)))) i, i < n ->
+  nth i (concatenate n ss) [] = concat (map (fun s => nth i s []) ss).
+Proof. exact concatenate_nth. Qed.
+Print Assumptions C18_concatenate_row.
+
+Theorem C18_concatenate_commutes : forall (V : Type) n ps (ss : list (list (list (option V)))),
+  Forall (fun p => p < n) ps ->
+  concatenate (length ps) (map (take_rows ps) ss) = take_rows ps (concatenate n ss).
+Proof. exact concatenate_commutes. Qed.
+Print Assumptions C18_concatenate_commutes.
+
+(* ---- non-vacuity ---- *)
+Example C18_ex_endlock : endlock1 [[Some 1%Z; None; Some 2%Z; None; None]] = Some [[None; None; Some 1%Z; None; Some 2%Z]].
+Proof. vm_compute. reflexivity. Qed.
+Example C18_ex_threshold :
+  threshold1 (fun k => k) (fun x => match x with Some v => (0 <? v)%Z | None => false end) 2
+             [[Some 1%Z; Some 0%Z; Some 5%Z; Some 5%Z]] = [[Some 0%Z; Some 0%Z; Some 1%Z; Some 1%Z]].
+Proof. vm_compute. reflexivity. Qed.
+Example C18_ex_lock : lock1 2 [[Some 1%Z; Some 2%Z]; [Some 3%Z; Some 4%Z]] [0%Z; 1%Z]
+  = Some ([[None; Some 1%Z; Some 2%Z]; [Some 3%Z; Some 4%Z; None]], 1%Z).
+Proof. vm_compute. reflexivity. Qed.
+Example C18_ex_downsample : downsample1 2 [[Some 1%Q; None; Some 3%Q; Some 5%Q; Some 7%Q]] = Some [[Some (1 / 1)%Q; Some ((3 + (5 + 0)) / 2)%Q]].
+Proof. vm_compute. reflexivity. Qed.
